@@ -196,7 +196,10 @@ func linearize(th map[string][]rec, preexisting bool) ([]rec, int) {
 	var slots, begins, results, tdFailed int
 	var stopped, collected int
 	var svcShut, reqShut, lastExitRunch bool
-	given := map[int]bool{0: true} // manifests handed to a manager (created with / update routed)
+	// manifests are values: the op goroutine can only have read the content the deploy was issued with or one handed to
+	// the manager (created with / update routed) since that issue
+	issuedIM := -1
+	given := map[int]bool{}
 	if preexisting {
 		created = 1
 	}
@@ -236,7 +239,7 @@ func linearize(th map[string][]rec, preexisting bool) ([]rec, int) {
 			return true
 		case "op_begin":
 			// data dependency: the op goroutine can only have read a manifest the manager had been given
-			return slots >= begins+1 && (r.C != "Deploy" || given[r.M])
+			return slots >= begins+1 && (r.C != "Deploy" || r.M == issuedIM || given[r.M])
 		}
 		return true
 	}
@@ -280,6 +283,10 @@ func linearize(th map[string][]rec, preexisting bool) ([]rec, int) {
 			if r.Issued != "-" {
 				slots++
 				tdFailed = 0
+				if r.Issued == "Deploy" {
+					issuedIM = r.IM
+					given = map[int]bool{}
+				}
 			}
 			if r.Exit {
 				lastExitRunch = r.Runch
